@@ -72,7 +72,7 @@ func (c15) Gen(r *sim.Rand, c *sim.Case, tier string) {
 	notes := 0
 	var headTexts []sim.Str
 	n := r.Range(3, 25)
-	tocMax := 0
+	tocMax, tocTwice := 0, false
 	for len(a) < n {
 		switch x := r.Intn(20); {
 		case x < 7:
@@ -104,8 +104,14 @@ func (c15) Gen(r *sim.Rand, c *sim.Case, tier string) {
 					tocMax = 3 // UpdateTOC rebuilds with the default level (listed finding): the search lane asks for that level
 				}
 				a = append(a, sim.Op{K: "toc.gen", S: []sim.Str{"Contents"}, I: []int{tocMax, 15}})
-			} else {
-				a = append(a, sim.Op{K: "toc.update"})
+			} else if r.Chance(0.3) {
+				// a table of contents is generated again, for another level: it lists the headings up to THAT level
+				// (the document then holds two tables of contents and UpdateTOC refreshes the first: which one "the" table is
+				// after that is not for this check to say, so no update follows)
+				tocMax, tocTwice = r.Range(1, 9), true
+				a = append(a, sim.Op{K: "toc.gen", S: []sim.Str{"Contents"}, I: []int{tocMax, 15}})
+			} else if (tocMax == 3 && !tocTwice) || Wild {
+				a = append(a, sim.Op{K: "toc.update"}) // (after a level other than the default: listed finding toc-update-uses-default-level)
 			}
 		case x < 18:
 			a = append(a, sim.Op{K: "obs", I: []int{1}})
